@@ -13,7 +13,8 @@ matching any: such a pair is one link written twice).
 
 Reader (parse): segments, edges classified by geometry (C11's rule: whole interval on a side = containment;
 an oriented suffix meeting an oriented prefix = dovetail; anything else internal), reference lists per line,
-union-find components, end degrees, maximal chains.
+union-find components, end degrees, maximal chains.  visible_text drops the lines gfapy writes for its placeholders
+(graphs under construction, C15); closure_failures(g, allow_virtual=True) tolerates those placeholders.
 """
 import re
 from harness import lib
@@ -355,8 +356,19 @@ def lib_path(p):
 
 
 # ================================================================================================ lib-level closure
-def closure_failures(g):
-    """every line's references are lines of g, and every back-reference is mirrored (public API only)"""
+VIRTUAL_MARK = "\tco:Z:GFAPY_virtual_line"
+
+
+def visible_text(text):
+    """the written text without the lines gfapy writes for its placeholders (virtual lines: a segment or link that is
+    mentioned by another line but has not arrived; they are written with the tag co:Z:GFAPY_virtual_line)"""
+    return "\n".join(l for l in text.split("\n") if not l.endswith(VIRTUAL_MARK) and (VIRTUAL_MARK + "\t") not in l)
+
+
+def closure_failures(g, allow_virtual=False):
+    """every line's references are lines of g, and every back-reference is mirrored (public API only).
+    allow_virtual=True: for graphs that legitimately hold references to lines which have not arrived (placeholders
+    are then not reported; references to lines outside the Gfa and one-sided back-references still are)"""
     gfapy = lib.import_gfapy()
     F = []
     lines = g.lines
@@ -368,13 +380,13 @@ def closure_failures(g):
         if isinstance(ref, gfapy.Line):
             if id(ref) not in ids or ref.gfa is not g:
                 F.append("dangling-reference: %s of %r is not a line of the Gfa: %r" % (what, str(owner), str(ref)))
-            elif ref.virtual:
+            elif ref.virtual and not allow_virtual:
                 F.append("virtual-line: %s of %r is virtual: %r" % (what, str(owner), str(ref)))
         elif isinstance(ref, str):
             F.append("unresolved-reference: %s of %r is the string %r" % (what, str(owner), ref))
     for l in lines:
         rt = l.record_type
-        if l.virtual:
+        if l.virtual and not allow_virtual:
             F.append("virtual-line: %r" % str(l))
         if rt in ("L", "C"):
             chk(l, l.from_segment, "from"); chk(l, l.to_segment, "to")
